@@ -331,7 +331,7 @@ PROPS['C17'] = {
 PROPS['C10'] = {
     'module': 'SuironVerif.Props.C10',
     'theorems': ['Suiron.C10.rename_shape', 'Suiron.C10.rename_shapeL', 'Suiron.C10.rename_ok', 'Suiron.C10.rename_okL', 'Suiron.C10.rename_consistent',
-                 'Suiron.C10.rename_list_consistent', 'Suiron.C10.make_query_fresh'],
+                 'Suiron.C10.rename_list_consistent', 'Suiron.C10.make_query_fresh', 'Suiron.C10.ids_stay_below_counter', 'Suiron.C10.fresh_in_search'],
     'oracles': ['C10'],
     'suites': {
         'quick': [{'suite': 'rename', 'args': ['--props', 'C10', '--n', '4000']}, {'suite': 'rename', 'args': ['--props', 'C10', '--exhaustive']},
@@ -347,8 +347,11 @@ PROPS['C10'] = {
     'design_ref': '5.10',
     'assumptions': ["oracle on the implementation: with all ids erased the rule is unchanged; each name has one id and each id one name; every id is above the counter the "
                     "renaming started from; the counter advances by the number of distinct names",
-                    "`no fresh variable is in use elsewhere in the current search` follows from ids being above the global counter, which only grows during a search; "
-                    "the engine runs check the counter after every request against the model"],
+                    "`no fresh variable is in use elsewhere in the current search` is PROVED for the reference machine with cut (fresh_in_search, ids_stay_below_counter, "
+                    "Lemmas/FreshInSearch.lean): along every run from a query every variable id in the configuration - goal lists, substitution sets, kept alternatives, inner "
+                    "searches of not / time - is at most the counter, and the clause get_rule hands out from that counter has ids above it only; fragment: the control language with "
+                    "!, fail, nl, =, the comparisons, no function terms (the invariant carried by the renaming simulation of C11, taken at the identity renaming). Beyond the "
+                    "fragment the engine runs check the counter after every request against the model"],
 }
 PROPS['C11'] = {
     'module': 'SuironVerif.Props.C11',
@@ -597,7 +600,7 @@ LEVEL_TEXT = {
            'collected answers followed by the message iff the flag is set. Real time (>= 1 s, cancellation) is exercised by real-timer runs and a cancel stress, not proved.',
     'C10': 'Proved in Lean by structural recursion over all terms: renaming apart leaves a term unchanged once ids are erased (atoms, numbers, list cells with counts and '
            'tail markers, the empty list, nesting); there is one map from names to ids such that every variable carries the id of its name, distinct names get distinct '
-           'ids, every new id is above the starting counter and at most the new counter; make_query starts from 0. Tied to unifiable.rs / rule.rs / goal.rs by the rename '
+           'ids, every new id is above the starting counter and at most the new counter; make_query starts from 0. Mid-search (fresh_in_search): along every run of the reference machine with cut from a query, every variable in use anywhere in the configuration has an id at most the counter and the clause taken at that moment has ids above it only, so no fresh variable is in use elsewhere in the current search (fragment: control language with cut, fail, nl, =, comparisons; no function terms). Tied to unifiable.rs / rule.rs / goal.rs by the rename '
            'suite (whole renamed rules compared) and, mid-search, by the engine suite.',
     'C11': 'PARTIAL proof: for the ENGINE MODEL (and the reference machines its requests are runs of, C01) on programs whose built-in predicates are the cut, fail, nl, = (unify) and the five comparisons and which have no function terms - calls, conjunction and disjunction nested to any depth, not, time - the property is proved outright (C11_engine, C11_machine_with_cut, C11_machine): if each rule of the knowledge base is renamed by an injective map of its own - maps may differ from rule to rule and may reuse the names of the query - then request by request every query gets the same answers in the same order with the same output, the bindings renamed by a map that is the identity on the variables of the query. Underneath: unification commutes with a renaming that is injective for each variable id; renaming apart hands out ids by first occurrence only and commutes with a renaming of names; a renaming commutes with everything the cut does; term comparison is blind to it. '
            'Programs with other built-in predicates and function terms are decided on the implementation by running every generated program under four alpha-renamings and comparing answers, order and output.',
